@@ -16,7 +16,8 @@ RULE = ("for every monitored function (7 exporters incl. tree_to_dot and tree_to
         "suffix-related names, int/str/None/bool attributes), a start node (root or inner), random options, then a "
         "history of 1-10 mutations (re-parent, detach, del children, set attribute, rename, attach a brand-new node - which later "
         "operations may address) interleaved on the input and on the returned tree; every function also on 1- and 2-node trees "
-        "with growth on both sides; oracle-only streams: the copying functions on BinaryNode trees, and a fault stream in which "
+        "with growth on both sides; oracle-only streams: the copying functions on BinaryNode trees (clone_tree to BinaryNode compared slot-exactly; right-only "
+        "children reproduce known finding K5, clause clone_binary_left_compaction), and a fault stream in which "
         "a node carries an attribute value whose __deepcopy__ raises (the input must be intact whether or not the call raises). Compared with the Model-A store: every cell (parent, ordered children, name, public "
         "attributes) of the input and of the returned component after the history, cross links shown explicitly. "
         "A case is non-trivial when the tree has >=3 nodes and the history has an operation; distinct = distinct lines")
@@ -26,7 +27,8 @@ MODELLED = ["Python objects are store ids; copy.deepcopy copies the whole compon
             "the pure readers (exporters, printers, iterators, searches, get_tree_diff, the source side of copy_*_from_tree_to_tree) are the identity on the store: that they do not mutate is NOT proved, it is what this monitor checks on every case",
             "generators are driven to exhaustion; printing goes to a captured stdout",
             "private attributes (names starting with '_', e.g. the `_sep` that get_tree_diff writes on other_tree) are not part of the signature"]
-ASSUMPTIONS = ["copy.copy(node) (documented shallow copy) and tree_to_pillow (needs a font download) are out of scope (DESIGN section 5)",
+ASSUMPTIONS = ["attribute VALUES are outside the structural model: clone_tree passes them on by reference (a mutable attribute object is shared between clone and original); the monitor uses immutable values",
+               "copy.copy(node) (documented shallow copy) and tree_to_pillow (needs a font download) are out of scope (DESIGN section 5)",
                "user callbacks passed to the functions (filters, conditions, attribute callables) are pure",
                "histories mutate one side at a time; an operation never links a node of the result to a node of the input"]
 
@@ -310,6 +312,18 @@ def gen(rng: random.Random, tier: str):
             g = [["r", "G", rng.randrange(size), "77"], ["o", "G", rng.randrange(size), "78"]]
             rng.shuffle(g)
             cases.append(mk(fn, spec, start, "/", o, g + rand_hist(rng, size, k=rng.randint(0, 4)), ("binary", "oracle-only")))
+    # oracle-only: clone_tree(BinaryNode tree, BinaryNode), slot-exact; right-only children hit known finding K5
+    for _ in range(2 * nr):
+        size = rng.choice([1, 2, 2, 3, 4, 6, 9])
+        shape = bshape(rng, size)
+        spec = label(shape, rng)
+        nodes = number(spec)
+        singles = [i for i, _p, _n, sp in nodes if len(sp[2]) == 1]
+        right = [i for i in singles if rng.random() < 0.5]
+        start = 0 if rng.random() < 0.6 else rng.randrange(size)
+        g = [["r", "A", rng.randrange(size), "age", 7], ["o", "N", rng.randrange(size), "q"]]
+        cases.append(mk("clone_tree", spec, start, "/", {"binary": True, "right": right}, g + rand_hist(rng, size, k=rng.randint(0, 3)),
+                        ("binary", "clone-binary", "oracle-only", "right-only" if right else "no-right-only")))
     # oracle-only fault stream: some node carries an attribute value whose __deepcopy__ raises; whether or not the
     # call raises, the input must be left exactly as it was
     for fn in allfns:
@@ -367,15 +381,17 @@ def nontrivial(case):
 
 
 # ---------------------------------------------------------------- real side
-def build_binary(spec, fault=None):
+def build_binary(spec, fault=None, right=()):
+    """`right`: pre-order indices of the nodes whose ONLY child sits in the right slot"""
     from bigtree import BinaryNode
     nodes = []
     def go(s):
         extra = {"resource": Uncopyable()} if (fault is not None and len(nodes) == fault) else {}
-        n = BinaryNode(s[0], uid=len(nodes), **s[1], **extra)
+        i = len(nodes)
+        n = BinaryNode(s[0], uid=i, **s[1], **extra)
         nodes.append(n)
         kids = [go(k) for k in s[2]]
-        n.children = (kids + [None, None])[:2]
+        n.children = [None, kids[0]] if (len(kids) == 1 and i in right) else (kids + [None, None])[:2]
         return n
     return go(spec), nodes
 
@@ -452,7 +468,7 @@ def call(d, root, nodes):
         res = start.copy() if fn == "copy" else _copy.deepcopy(start)
         return res, None
     if kind == "clone":
-        return bigtree.clone_tree(start, Node), None
+        return bigtree.clone_tree(start, bigtree.BinaryNode if o.get("binary") else Node), None
     if kind == "subtree":
         return bigtree.get_subtree(start, o["q"], max_depth=o["md"]), None
     if kind == "prune":
@@ -618,7 +634,7 @@ def show_cells(pool, refs):
 def run_real(d):
     """returns (error name | None, ret, onodes, rnodes(modelled) , other(unmodelled result side))"""
     from bigtree.utils.exceptions import NotFoundError
-    root, nodes = build_binary(d["spec"]) if d["opts"].get("binary") else build(d["spec"], d["tsep"])
+    root, nodes = build_binary(d["spec"], right=d["opts"].get("right", ())) if d["opts"].get("binary") else build(d["spec"], d["tsep"])
     try:
         ret, other = call(d, root, nodes)
     except NotFoundError:
@@ -743,13 +759,49 @@ def shape_sig(n):
     return (n.name, pub_attrs(n), [shape_sig(c) if c is not None else None for c in n.children])
 
 
+def compacted(sh):
+    """the slot-exact shape `sh` with every empty LEFT slot closed up (the pinned behaviour of K5)"""
+    kids = [compacted(k) for k in sh[2] if k is not None]
+    return (sh[0], sh[1], (kids + [None, None])[:2] if len(sh[2]) == 2 else kids)
+
+
+def replay_known(entry):
+    """does the listed witness still reproduce on the real code"""
+    if entry.get("witness", {}).get("clause") != "clone_binary_left_compaction":
+        return False
+    from bigtree import BinaryNode, clone_tree
+    a = BinaryNode(1); b = BinaryNode(2)
+    a.children = [None, b]
+    c = clone_tree(a, BinaryNode)
+    return len(c.children) == 2 and c.children[1] is None and c.children[0] is not None and c.children[0].name == "2"
+
+
+def is_known(case, msg, entries):
+    """K5 only: clone_tree on a BinaryNode source whose clone equals the input up to left-compaction of empty left
+    slots (re-computed here on the real code); any other difference stays a violation"""
+    if not any(e.get("witness", {}).get("clause") == "clone_binary_left_compaction" for e in entries):
+        return False
+    d = case.data
+    if d["fn"] != "clone_tree" or not d["opts"].get("binary") or "clone_binary_left_compaction" not in msg:
+        return False
+    import bigtree
+    root, nodes = build_binary(d["spec"], d["opts"].get("fault"), d["opts"].get("right", ()))
+    try:
+        ret = bigtree.clone_tree(nodes[d["start"]], bigtree.BinaryNode)
+    except Exception:
+        return False
+    got, want = shape_sig(ret), shape_sig(root)
+    return got != want and got == compacted(want)
+
+
 def oracle(case):
     d = case.data
     if KIND[d["fn"]] == "dag":
         return oracle_dag(d)
     msgs = []
     fault = d["opts"].get("fault")
-    root, nodes = build_binary(d["spec"], fault) if d["opts"].get("binary") else build(d["spec"], d["tsep"], fault=fault)
+    root, nodes = (build_binary(d["spec"], fault, d["opts"].get("right", ())) if d["opts"].get("binary")
+                   else build(d["spec"], d["tsep"], fault=fault))
     before = sig(nodes)
     shape0 = shape_sig(root)
     parent_uid = {i: (nodes[i].parent.get_attr("uid") if nodes[i].parent is not None else None) for i in range(len(nodes))}
@@ -779,8 +831,14 @@ def oracle(case):
         if shape_sig(ret.root) != shape0 or ret.get_attr("uid") != d["start"]:
             msgs.append(f"{d['fn']}: the copy differs from the original")
     elif kind == "clone":
-        if shape_sig(ret) != shape0 or not ret.is_root:
-            msgs.append("clone_tree: the clone differs from the original tree")
+        if not ret.is_root:
+            msgs.append("clone_tree: the clone is not a root")
+        if shape_sig(ret) != shape0:
+            if d["opts"].get("binary") and shape_sig(ret) == compacted(shape0) :
+                # K5: children are re-attached through `parent=`, which fills the first empty slot
+                msgs.append("clone_tree: clone_binary_left_compaction: a right-only child was cloned into the left slot")
+            else:
+                msgs.append("clone_tree: the clone differs from the original tree")
     elif kind in ("subtree", "prune"):
         if not ret.is_root:
             msgs.append(f"{d['fn']}: the result is not a root")
